@@ -12,3 +12,4 @@ for p in "$@"; do
   echo "$out" | grep -E "^VIOLATION|^KNOWN-FINDING|^  what:|^\[done\]" | cut -c1-400
 done
 git -C /repo worktree remove --force "$wt"
+h=$(printf %s "$wt" | sha256sum | cut -c1-8); rm -rf "/verif/harness/bin/$h" /verif/harness/go.alt$h.mod /verif/harness/go.alt$h.sum
